@@ -279,6 +279,13 @@ func runC05InWorker(c c05Case) (c05Result, error) {
 		}
 		if rerr != nil {
 			res.Rejected++
+			// refused part-way: what is left in the field is still a value of its type (a
+			// slice whose length its array can hold, booleans that are 0 or 1), which the
+			// caller can look at, overwrite or hand to the next decode
+			if err := validRepr(cell.Field(1), "F"); err != nil {
+				return res, fmt.Errorf("datum %d (%v): decode of %s into %s (%s) returned an error and left behind something that is not a value of the field's type: %v",
+					di, briefDatum(d), c.X.Kind, c.G.GoString(), c.Pos, err)
+			}
 			continue
 		}
 		res.Decoded++
@@ -349,6 +356,11 @@ func markOutside(g spec.TypeSpec, x ref.Schema, v reflect.Value, where string) f
 // validRepr checks that every bool reachable from v holds a legal bool
 // representation (the byte 0 or 1): anything else is not a value of type bool.
 func validRepr(v reflect.Value, path string) error {
+	if v.Kind() == reflect.Slice {
+		if v.Len() > v.Cap() || (v.Len() > 0 && v.IsNil()) {
+			return fmt.Errorf("%s: slice of length %d, capacity %d, data %#x", path, v.Len(), v.Cap(), v.Pointer())
+		}
+	}
 	switch v.Kind() {
 	case reflect.Bool:
 		if v.CanAddr() {
